@@ -3,6 +3,7 @@ package main
 import (
 	"fmt"
 	"go/types"
+	"os"
 	"runtime/debug"
 	"sort"
 	"strings"
@@ -52,6 +53,9 @@ func (e *Engine) verifyFuncFor(key string, budget int, prop string) (res *FuncRe
 		if r := recover(); r != nil {
 			if se, ok := r.(specError); ok {
 				res.Error = "contract error: " + se.msg
+				if os.Getenv("GOVC_DEBUG") != "" {
+					res.Error += "\n" + string(debug.Stack())
+				}
 			} else {
 				res.Error = fmt.Sprintf("engine: %v\n%s", r, debug.Stack())
 			}
@@ -119,7 +123,7 @@ func (e *Engine) verifyFuncFor(key string, budget int, prop string) (res *FuncRe
 		}
 		res.LoopsWithInv = len(seen)
 		for _, cl := range ct.Clauses {
-			if !x.active(cl) {
+			if !x.active(cl) || cl.Loop >= 0 {
 				continue
 			}
 			if cl.Kind == "requires" || cl.Kind == "assume" || cl.Kind == "preserves" {
